@@ -2,7 +2,7 @@
 """regenerate the two tables of DESIGN.md section 13 from seeded/*/meta.json"""
 import json, os, re
 root = os.path.dirname(os.path.abspath(__file__))
-ms = [json.load(open(os.path.join(root, 'seeded', d, 'meta.json'))) for d in sorted(os.listdir(os.path.join(root, 'seeded')))]
+ms = [json.load(open(os.path.join(root, 'seeded', d, 'meta.json'))) for d in sorted(os.listdir(os.path.join(root, 'seeded'))) if os.path.isdir(os.path.join(root, 'seeded', d))]
 rows = "\n".join("| %s | %s | %s | %s |" % (m['id'], m['property'], m['summary'].replace('|', '/'),
                  "; ".join("%s: %s" % kv for kv in m['detection'].items()).replace('|', '/')) for m in ms)
 missed = [m for m in ms if any('after strengthening' in v for v in m['detection'].values()) or m['id'] == 'C07-H1']
